@@ -112,8 +112,9 @@ def make_input(rng: random.Random, case: Dict[str, Any], up: bytes) -> bytes:
             return b'GET http://' + up + b'/' + b'a' * 70000 + b' HTTP/1.1\r\nHost: ' + up + b'\r\n\r\n'
         if w == 'long-header':
             return b'GET http://' + up + b'/ HTTP/1.1\r\nHost: ' + up + b'\r\nX-Long: ' + b'v' * 70000 + b'\r\n\r\n'
-        if w == 'many-headers':
-            return b'GET http://' + up + b'/ HTTP/1.1\r\nHost: ' + up + b'\r\n' + b''.join(b'X-H%d: %d\r\n' % (i, i) for i in range(10000)) + b'\r\n'
+        if w.startswith('many-headers'):
+            n = int(w.split(':')[1]) if ':' in w else 10000
+            return b'GET http://' + up + b'/ HTTP/1.1\r\nHost: ' + up + b'\r\n' + b''.join(b'X-H%d: %d\r\n' % (i, i) for i in range(n)) + b'\r\n'
         if w == 'long-method':
             return b'M' * 70000 + b' http://' + up + b'/ HTTP/1.1\r\nHost: ' + up + b'\r\n\r\n'
         if w == 'no-crlf':
@@ -298,8 +299,9 @@ def run_case(case: Dict[str, Any]) -> Dict[str, Any]:
             rig.until(lambda: client.ended, [client], idle_timeout=0.3)     # absence verdict: wait with real time
             if not client.ended:
                 flag('open-after-rejection', code=rejected[0]['code'])
-        if rejected and len(finals) > 1 and finals[-1] is not rejected[-1]:
-            flag('response-after-rejection')
+        if rejected and finals[-1] is not rejected[0]:
+            # the first response that announces the end of the conversation is the last thing sent (another rejection included)
+            flag('response-after-rejection', codes=[m['code'] for m in finals])
         # (3) silence with the connection open
         if not rx and not client.ended:
             if req_complete and not connects:
@@ -374,7 +376,8 @@ def cases(tier: str, seed: int):
         for sg in segs:
             yield mk(kind='concat', names=names, seg=sg, cfg='web' if names[0].startswith('web') else 'proxy', live_origin=True)
             yield mk(kind='concat', names=names, seg=sg, cfg='web' if names[0].startswith('web') else 'proxy')
-    for w in ['long-target', 'long-header', 'many-headers', 'long-method', 'no-crlf', 'crlf-flood']:
+    for w in ['long-target', 'long-header', 'many-headers', 'many-headers:33', 'many-headers:65', 'many-headers:101', 'many-headers:129',
+              'many-headers:257', 'many-headers:1025', 'long-method', 'no-crlf', 'crlf-flood']:
         for sg in ('whole', 'two'):
             yield mk(kind='oversize', what=w, seg=sg, cfg=rng.choice(['proxy', 'web']))
     for k in range(1500 if tier == 'quick' else 45000):
